@@ -1,7 +1,182 @@
-(* API commands for the Time package (stub until the package lands). *)
-From Coq Require Import ZArith List.
-From Labella Require Import Extract.Codec.
+(* API commands 100..199: time package (C14-C18).
+   Instants travel as integer microseconds since 1970-01-01T00:00:00 (naive).
+   A `res dt` is encoded  Ok t -> [1; to_us t] | Raise -> [0] | NoFuel -> [-1];
+   a `res (list dt)`  Ok l -> 1 :: len :: to_us…  | Raise -> [0] | NoFuel -> [-1].
+   Units: 0 second, 1 minute, 2 hour, 3 day, 4 week, 5 month, 6 year.
+
+   100 floor  [u; t]          101 ceil [u; t]        102 round [u; t]
+   103 offset [u; t; k]       104 range [u; t0; t1; step]
+   105 number [u; t] -> [n]
+   106 fields [t] -> [y; mo; d; h; mi; s; us; isoweekday; day_of_year]
+   107 to_us  [y; mo; d; h; mi; s; us] -> [valid; us]
+   110 batch  [u; op; n; t…]  op 0 floor, 1 ceil, 2 round -> concatenated results
+   111 batch offset [u; k; n; t…]
+   time scale (domain instants a b, range ends r0 r1 as rationals num den):
+   140 scale  [a; b; r0; r1; n; t…]  -> 1 :: n :: positions (num den)…
+   141 invert [a; b; r0; r1; n; y…]  -> 1 :: n :: exact epoch microseconds (num den)…
+   142 invert, rounded to a datetime [a; b; r0; r1; n; y…] -> concatenated `res dt`
+   150 ticks  [d0; d1; m] -> `res (list dt)`
+   151 tickMethod [d0; d1; m] (d0 <= d1) -> [1; kind; unit; skip num; skip den] (kind 0 ms, 1 unit) | [0] | [-1]
+   152 nice   [d0; d1; m] -> [1; d0'; d1'] | [0] | [-1] *)
+From Coq Require Import ZArith QArith List Bool.
+From Labella Require Import Extract.Codec Time.Calendar Time.Interval Time.TimeScale Time.TimeTicks Time.TimeNice.
 Import ListNotations.
 Open Scope Z_scope.
 
-Definition api_time (cmd : Z) (a : list Z) : list Z := bad_input.
+Definition d_unit : dec unit_id := fun l =>
+  match l with
+  | 0 :: r => Some (USecond, r) | 1 :: r => Some (UMinute, r) | 2 :: r => Some (UHour, r)
+  | 3 :: r => Some (UDay, r) | 4 :: r => Some (UWeek, r) | 5 :: r => Some (UMonth, r)
+  | 6 :: r => Some (UYear, r) | _ => None
+  end.
+
+(* an instant: must be inside datetime.min .. datetime.max *)
+Definition d_dt : dec dt := fun l =>
+  match l with
+  | z :: r => if in_range z then Some (of_us z, r) else None
+  | [] => None
+  end.
+
+Definition e_res_dt (r : res dt) : list Z :=
+  match r with Ok t => [1; to_us t] | Raise => [0] | NoFuel => [-1] end.
+Definition e_res_list (r : res (list dt)) : list Z :=
+  match r with
+  | Ok l => 1 :: e_list (fun t => [to_us t]) l
+  | Raise => [0]
+  | NoFuel => [-1]
+  end.
+
+Definition api_unop (f : interval -> dt -> res dt) (a : list Z) : list Z :=
+  match d_pair d_unit d_dt a with
+  | Some ((u, t), _) => e_res_dt (f (interval_of u) t)
+  | None => bad_input
+  end.
+
+Definition api_offset (a : list Z) : list Z :=
+  match d_pair d_unit (d_pair d_dt d_z) a with
+  | Some ((u, (t, k)), _) => e_res_dt (iv_offset (interval_of u) t k)
+  | None => bad_input
+  end.
+
+Definition api_range (a : list Z) : list Z :=
+  match d_pair d_unit (d_pair d_dt (d_pair d_dt d_z)) a with
+  | Some ((u, (t0, (t1, st))), _) => e_res_list (iv_range (interval_of u) t0 t1 st)
+  | None => bad_input
+  end.
+
+Definition api_number (a : list Z) : list Z :=
+  match d_pair d_unit d_dt a with
+  | Some ((u, t), _) => [iv_number (interval_of u) t]
+  | None => bad_input
+  end.
+
+Definition api_fields (a : list Z) : list Z :=
+  match d_dt a with
+  | Some (t, _) => [dt_y t; dt_mo t; dt_d t; dt_h t; dt_mi t; dt_s t; dt_us t;
+                    isoweekday t; day_of_year t]
+  | None => bad_input
+  end.
+
+Definition api_to_us (a : list Z) : list Z :=
+  match a with
+  | [y; mo; d; h; mi; s; us] =>
+      let t := mkdt y mo d h mi s us in
+      [if validb t then 1 else 0; to_us t]
+  | _ => bad_input
+  end.
+
+Definition op_of (op : Z) : option (interval -> dt -> res dt) :=
+  match op with 0 => Some iv_floor | 1 => Some iv_ceil | 2 => Some iv_round | _ => None end.
+
+Definition api_batch (a : list Z) : list Z :=
+  match d_pair d_unit (d_pair d_z (d_list d_dt)) a with
+  | Some ((u, (op, ts)), _) =>
+      match op_of op with
+      | Some f => flat_map (fun t => e_res_dt (f (interval_of u) t)) ts
+      | None => bad_input
+      end
+  | None => bad_input
+  end.
+
+Definition api_batch_offset (a : list Z) : list Z :=
+  match d_pair d_unit (d_pair d_z (d_list d_dt)) a with
+  | Some ((u, (k, ts)), _) => flat_map (fun t => e_res_dt (iv_offset (interval_of u) t k)) ts
+  | None => bad_input
+  end.
+
+Definition d_tscale : dec tscale := fun l =>
+  match d_pair d_dt (d_pair d_dt (d_pair d_q d_q)) l with
+  | Some ((a, (b, (r0, r1))), r) => Some (mk_tscale a b r0 r1, r)
+  | None => None
+  end.
+
+Definition api_ts_scale (a : list Z) : list Z :=
+  match d_pair d_tscale (d_list d_dt) a with
+  | Some ((s, ts), _) => 1 :: e_list (fun t => e_q (ts_apply s t)) ts
+  | None => bad_input
+  end.
+
+Definition api_ts_invert (a : list Z) : list Z :=
+  match d_pair d_tscale (d_list d_q) a with
+  | Some ((s, ys), _) => 1 :: e_list (fun y => e_q (ts_invert_ms s y * 1000)) ys
+  | None => bad_input
+  end.
+
+Definition api_ts_invert_dt (a : list Z) : list Z :=
+  match d_pair d_tscale (d_list d_q) a with
+  | Some ((s, ys), _) => flat_map (fun y => e_res_dt (ts_invert s y)) ys
+  | None => bad_input
+  end.
+
+Definition api_ticks (a : list Z) : list Z :=
+  match d_pair d_dt (d_pair d_dt d_z) a with
+  | Some ((d0, (d1, m)), _) => e_res_list (ts_ticks d0 d1 m)
+  | None => bad_input
+  end.
+
+Definition unit_code (u : unit_id) : Z :=
+  match u with USecond => 0 | UMinute => 1 | UHour => 2 | UDay => 3 | UWeek => 4 | UMonth => 5 | UYear => 6 end.
+
+Definition api_tick_method (a : list Z) : list Z :=
+  match d_pair d_dt (d_pair d_dt d_z) a with
+  | Some ((d0, (d1, m)), _) =>
+      match tick_method_of (to_ms d0) (to_ms d1) m with
+      | Ok (TMillis st) => [1; 0; -1] ++ e_q st
+      | Ok (TUnit u sk) => [1; 1; unit_code u] ++ e_q sk
+      | Raise => [0]
+      | NoFuel => [-1]
+      end
+  | None => bad_input
+  end.
+
+Definition api_nice (a : list Z) : list Z :=
+  match d_pair d_dt (d_pair d_dt d_z) a with
+  | Some ((d0, (d1, m)), _) =>
+      match ts_nice d0 d1 m with
+      | Ok (n0, n1) => [1; to_us n0; to_us n1]
+      | Raise => [0]
+      | NoFuel => [-1]
+      end
+  | None => bad_input
+  end.
+
+Definition api_time (cmd : Z) (a : list Z) : list Z :=
+  match cmd with
+  | 100 => api_unop iv_floor a
+  | 101 => api_unop iv_ceil a
+  | 102 => api_unop iv_round a
+  | 103 => api_offset a
+  | 104 => api_range a
+  | 105 => api_number a
+  | 106 => api_fields a
+  | 107 => api_to_us a
+  | 110 => api_batch a
+  | 111 => api_batch_offset a
+  | 140 => api_ts_scale a
+  | 141 => api_ts_invert a
+  | 142 => api_ts_invert_dt a
+  | 150 => api_ticks a
+  | 151 => api_tick_method a
+  | 152 => api_nice a
+  | _ => bad_input
+  end.
